@@ -32,6 +32,8 @@ type Transaction struct {
 	Tags        []Tag
 	Comments    []Comment
 	Range       Range
+	// DescriptionPos is where the description (or payee) text starts; the zero Position when there is none.
+	DescriptionPos Position
 }
 
 type Date struct {
